@@ -1,6 +1,8 @@
 (* C10 — metadata collections behave as an insertion-ordered map with a one-way freeze.
    The model (Md.v) is the list algorithms of metadata.c; these are the laws of an insertion-ordered
    map that they satisfy.  Statements only; proofs in MdFacts.v. *)
+From Sbdf Require Import Imp ImpCall Gen.Prog ImpFactsFrame ImpFactsHeap ImpFactsCells.
+From Coq Require Import List.
 From Sbdf Require Import Md Tm MdFacts VaFacts.
 
 (* names are unique and values are singletons whose default has the same type: an invariant of
@@ -89,3 +91,52 @@ Example C10_nonvacuous :
   let v := {| oty := SBDF_INTTYPEID; oelems := [[1; 0; 0; 0]] |} in
   add_args_ok v None /\ exists m, md_add [97] v None md_create = Ok m /\ md_cnt m = 1 /\ md_get [97] m = Ok v.
 Proof. split; [repeat split; try (right; reflexivity)|eexists; repeat split; reflexivity]. Qed.
+
+(* ---- the list functions from the source (src/metadata.c, translated on every run into the mini-C with a
+   cell heap for structs: Imp.v, ImpFactsCells.v).  md_head h m hb names flag: block hb of the cell heap is
+   a metadata head whose entries, in list order, carry the NUL-terminated names `names` (kept in the byte
+   memory m) and whose modifiable flag is `flag`.  For every such heap and memory:
+   sbdf_md_cnt returns the number of entries; sbdf_md_exists returns 1 exactly when the name is among
+   them; sbdf_md_set_immutable clears the flag cell and nothing else; sbdf_md_create hands out a fresh
+   empty, modifiable head (a failed calloc is reported - as ARGUMENT_NULL, which is what the source does).
+   None of them changes the byte memory or any other block. *)
+Theorem C10_source_md_cnt : forall k sx m h hb names modif, md_head h m hb names modif -> zlen names <= int_max ->
+  exists f0, forall f, (f0 <= f)%nat -> exists fin,
+    callC prog_env f prog_sbdf_md_cnt [VCell hb 0] m k sx h = OReturn (VInt (zlen names)) fin /\
+    inb fin = m /\ Imp.lookup cells_var (vars fin) = Some (VHeap h).
+Proof. exact md_cnt_source. Qed.
+Print Assumptions C10_source_md_cnt.
+
+Theorem C10_source_md_exists : forall k sx m h hb q name names modif, md_head h m hb names modif -> cstr_at m q name ->
+  exists f0, forall f, (f0 <= f)%nat -> exists fin,
+    callC prog_env f prog_sbdf_md_exists [VPtr RIn q; VCell hb 0] m k sx h = OReturn (VInt (if existsb (ImpFactsCells.list_eqb name) names then 1 else 0)) fin /\
+    inb fin = m /\ Imp.lookup cells_var (vars fin) = Some (VHeap h).
+Proof. exact md_exists_source. Qed.
+Print Assumptions C10_source_md_exists.
+
+Theorem C10_source_md_set_immutable : forall k sx m h hb first modif, nth_error h hb = Some (Some [first; VInt modif]) ->
+  exists h', set_nth_v hb (Some [first; VInt 0]) h = Some h' /\
+  exists f0, forall f, (f0 <= f)%nat -> exists fin,
+    callC prog_env f prog_sbdf_md_set_immutable [VCell hb 0] m k sx h = OReturn (VInt SBDF_OK) fin /\
+    inb fin = m /\ Imp.lookup cells_var (vars fin) = Some (VHeap h').
+Proof. exact md_set_immutable_source. Qed.
+Print Assumptions C10_source_md_set_immutable.
+
+Theorem C10_source_md_create : forall k sx m h,
+  exists f0, forall f, (f0 <= f)%nat -> exists fin,
+    callC prog_env f prog_sbdf_md_create [tok] m k sx h =
+      OReturn (VInt (if k =? 0 then SBDF_ERROR_ARGUMENT_NULL else SBDF_OK)) fin /\
+    inb fin = m /\
+    (if k =? 0 then Imp.lookup cells_var (vars fin) = Some (VHeap h)
+     else Imp.lookup cells_var (vars fin) = Some (VHeap (h ++ [Some [VInt 0; VInt 1]])) /\ Imp.lookup "*out"%string (vars fin) = Some (VCell (List.length h) 0) /\
+          md_head (h ++ [Some [VInt 0; VInt 1]]) m (List.length h) [] 1).
+Proof. exact md_create_source. Qed.
+Print Assumptions C10_source_md_create.
+
+Example C10_source_nonvacuous :
+  md_head [Some [VCell 1 0; VInt 1]; Some [VCell 2 0; VPtr RIn 0; VNull; VNull]; Some [VInt 0; VPtr RIn 3; VNull; VNull]] [97; 98; 0; 99; 0] 0 [[97; 98]; [99]] 1.
+Proof.
+  exists (VCell 1 0). split; [reflexivity|]. cbn [as_ptr md_list].
+  exists 1%nat, (VCell 2 0), 0, VNull, VNull. split; [reflexivity|]. split; [reflexivity|]. split; [split; [cbn; lia|reflexivity]|].
+  exists 2%nat, (VInt 0), 3, VNull, VNull. split; [reflexivity|]. split; [reflexivity|]. split; [split; [cbn; lia|reflexivity]|reflexivity].
+Qed.
